@@ -101,6 +101,11 @@ type MSHist struct {
 	// LateFrom > 0: the last IAVL store is only mounted by instances opened after that many commits
 	// (a store added by an upgrade: its own version numbering lags the multistore's)
 	LateFrom int `json:"late_from,omitempty"`
+	// Ghost: before every reload the live instance receives writes that are never committed; in-process reloads
+	// (LoadLatestVersion on the same object, LoadVersion on a CopyStore copy) must not show them
+	Ghost bool `json:"ghost,omitempty"`
+	// PruneAfterLoad: SetPruning is called after the versions are loaded instead of before mounting
+	PruneAfterLoad bool `json:"prune_after_load,omitempty"`
 }
 
 // AddLateStore turns the last store of a history into one that is mounted at a later reload (only under pruning
@@ -190,7 +195,7 @@ func openMS(db dbm.DB, h *MSHist) *msInst { return openMSAt(db, h, len(h.Commits
 // openMSAt: an instance opened after `done` commits (decides whether the late store is mounted yet).
 func openMSAt(db dbm.DB, h *MSHist, done int) *msInst {
 	rs := rootmulti.NewStore(db)
-	if h.Pruning != nil {
+	if h.Pruning != nil && !h.PruneAfterLoad {
 		rs.SetPruning(stypes.NewPruningOptions(h.Pruning[0], h.Pruning[1]))
 	}
 	rs.SetLazyLoading(h.Lazy)
@@ -206,6 +211,23 @@ func openMSAt(db dbm.DB, h *MSHist, done int) *msInst {
 	in.tkey = stypes.NewTransientStoreKey("transient")
 	rs.MountStoreWithDB(in.tkey, stypes.StoreTypeTransient, nil)
 	return in
+}
+
+// loadLatest / loadVersion: load, then (PruneAfterLoad histories) set the pruning options on the loaded store.
+func (in *msInst) loadLatest(h *MSHist) error {
+	err := in.rs.LoadLatestVersion()
+	in.pruneAfterLoad(h, err)
+	return err
+}
+func (in *msInst) loadVersion(h *MSHist, u int64) error {
+	err := in.rs.LoadVersion(u)
+	in.pruneAfterLoad(h, err)
+	return err
+}
+func (in *msInst) pruneAfterLoad(h *MSHist, err error) {
+	if err == nil && h.PruneAfterLoad && h.Pruning != nil {
+		in.rs.SetPruning(stypes.NewPruningOptions(h.Pruning[0], h.Pruning[1]))
+	}
 }
 
 func (in *msInst) apply(ops []Op, h *MSHist) {
@@ -380,7 +402,7 @@ func RunC12On(h *MSHist, rep Reporter, disk bool) {
 		rep.Count("c12.disk_histories", 1)
 	}
 	in := openMSAt(db, h, 0)
-	if err := in.rs.LoadLatestVersion(); err != nil {
+	if err := in.loadLatest(h); err != nil {
 		rep.Violate("C12", "initial-load", fmt.Sprintf("LoadLatestVersion on an empty database failed: %v", err))
 		return
 	}
@@ -427,6 +449,58 @@ func RunC12On(h *MSHist, rep Reporter, disk bool) {
 			if h.LateFrom > 0 && ci+1 >= h.LateFrom && len(in.keys) < h.NStores {
 				rep.Count("c12.late_store_mounted", 1)
 			}
+			if h.Ghost {
+				// writes that are never committed
+				for si, k := range in.keys {
+					st := in.rs.GetKVStore(k)
+					st.Set([]byte("ghost"), []byte("uncommitted"))
+					for key := range model[si] {
+						st.Delete([]byte(key))
+						break
+					}
+				}
+				rep.Count("c12.ghost_write_rounds", 1)
+				// (a) a copy of the store object loaded at a version (the route of historical contexts and custom queries)
+				for _, u := range []int64{v, v - 1} {
+					if u < 1 || !Retained(u, v, h.Pruning) || (h.LateFrom > 0 && u <= int64(h.LateFrom)) {
+						continue
+					}
+					var cerr error
+					var cp *rootmulti.Store
+					if p := safely(func() {
+						c := *in.rs.CopyStore()
+						cp = c.(*rootmulti.Store)
+						cerr = cp.LoadVersion(u)
+					}); p != nil {
+						cerr = fmt.Errorf("panic: %v", p)
+					}
+					if cerr != nil {
+						rep.Violate("C12", "copy-load-error/"+pstr, fmt.Sprintf("LoadVersion(%d) on a CopyStore copy at latest %d fails: %v", u, v, cerr))
+						continue
+					}
+					ci2 := &msInst{rs: cp, keys: in.keys, tkey: in.tkey}
+					if d := diffContent(versions[u], ci2.dump(h)); d != "" {
+						rep.Violate("C12", "copy-load-content", fmt.Sprintf("a CopyStore copy loaded at version %d (latest %d, uncommitted writes pending in the live store) does not show what was committed: %s", u, v, d))
+					}
+					rep.Count("c12.copy_loads", 1)
+				}
+				// (b) the same object loads its latest version again: the uncommitted writes are gone
+				var lerr error
+				if p := safely(func() { lerr = in.loadLatest(h) }); p != nil {
+					lerr = fmt.Errorf("panic: %v", p)
+				}
+				if lerr != nil {
+					rep.Violate("C12", "inprocess-reload-error/"+pstr, fmt.Sprintf("LoadLatestVersion on the live object after Commit %d fails: %v", v, lerr))
+					return
+				}
+				if lc := in.rs.LastCommitID(); lc.Version != v || !bytes.Equal(lc.Hash, cid.Hash) {
+					rep.Violate("C12", "inprocess-reload-commitid", fmt.Sprintf("the live object reloaded at %v, committed %v", lc, cid))
+				}
+				if d := diffContent(model, in.dump(h)); d != "" {
+					rep.Violate("C12", "inprocess-reload-content", fmt.Sprintf("after LoadLatestVersion on the live object (version %d) uncommitted writes are visible / committed data is missing: %s", v, d))
+				}
+				rep.Count("c12.inprocess_reloads", 1)
+			}
 			if disk {
 				db.Close()
 				ldb, err := dbm.NewGoLevelDB("c12", dir)
@@ -439,7 +513,7 @@ func RunC12On(h *MSHist, rep Reporter, disk bool) {
 			}
 			n := openMSAt(db, h, ci+1)
 			var err error
-			if p := safely(func() { err = n.rs.LoadLatestVersion() }); p != nil {
+			if p := safely(func() { err = n.loadLatest(h) }); p != nil {
 				err = fmt.Errorf("panic: %v", p)
 			}
 			if err != nil {
@@ -453,10 +527,11 @@ func RunC12On(h *MSHist, rep Reporter, disk bool) {
 				rep.Violate("C12", "reopen-content", fmt.Sprintf("reopened store at version %d: %s", v, d))
 			}
 			// every target version
-			for u := int64(1); u <= v+1; u++ {
+			// every target version, newest first (the last one loaded is the oldest)
+			for u := v + 1; u >= 1; u-- {
 				t := openMSAt(db, h, ci+1)
 				var err error
-				if p := safely(func() { err = t.rs.LoadVersion(u) }); p != nil {
+				if p := safely(func() { err = t.loadVersion(h, u) }); p != nil {
 					err = fmt.Errorf("panic: %v", p)
 				}
 				kept := Retained(u, v, h.Pruning)
@@ -493,7 +568,20 @@ func RunC12On(h *MSHist, rep Reporter, disk bool) {
 					rep.Count("c12.pruned_versions_refused", 1)
 				}
 			}
-			in = n // continue on the reopened instance
+			// reading old versions must not have moved anything: a fresh instance is again at the latest version
+			n2 := openMSAt(db, h, ci+1)
+			if p := safely(func() { err = n2.loadLatest(h) }); p != nil {
+				err = fmt.Errorf("panic: %v", p)
+			}
+			if err != nil {
+				rep.Violate("C12", "reopen-after-historical-loads-error/"+pstr, fmt.Sprintf("reopening after loading old versions (latest %d) failed: %v", v, err))
+				return
+			}
+			if lc := n2.rs.LastCommitID(); lc.Version != v || !bytes.Equal(lc.Hash, cid.Hash) {
+				rep.Violate("C12", "reopen-after-historical-loads-commitid", fmt.Sprintf("after old versions were loaded for reading, a reopened store reports %v; the latest commit is %v", lc, cid))
+				return
+			}
+			in = n2 // continue on the reopened instance
 		}
 	}
 }
@@ -550,6 +638,16 @@ func RunC13(h *MSHist, rep Reporter) int {
 			if err := x.rs.LoadLatestVersion(); err != nil {
 				rep.Violate("C13", "harness-reopen", fmt.Sprintf("reopening the clean snapshot of version %d failed: %v", v-1, err))
 				return points
+			}
+			if (v+i)%2 == 0 && v >= 3 && Retained(int64(v-2), int64(v-1), h.Pruning) {
+				// a historical read (a copy of the store loaded at an older version, as a query for an old height does)
+				// shortly before the commit that is interrupted
+				if p := safely(func() {
+					cp := *x.rs.CopyStore()
+					_ = cp.(*rootmulti.Store).LoadVersion(int64(v - 2))
+				}); p == nil {
+					rep.Count("c13.historical_read_before_crash", 1)
+				}
 			}
 			x.apply(h.Commits[v-1], h)
 			c.Ops, c.CrashAt = 0, i
